@@ -106,7 +106,7 @@ fn run_typed<H: Hk>(inp: &Input) -> Outcome {
         if inp.hook.is_none() && inp.prestream == 0 {
             match (inp.msg.len() + inp.split) % 4 {
                 2 => {
-                    digest::Update::update(&mut h, &inp.msg[..inp.msg.len().min(5)]);
+                    digest::Update::update(&mut h, &inp.msg[..if (inp.msg.len() / 4) % 2 == 0 { 0 } else { inp.msg.len().min(5) }]);
                     let _ = digest::FixedOutput::finalize_fixed_reset(&mut h);
                 }
                 3 => {
